@@ -25,7 +25,7 @@ func init() { core.Register(c12{}) }
 func (c12) ID() string    { return "C12" }
 func (c12) Level() string { return "fault_enumeration" }
 func (c12) Rule() string {
-	return "flip cases: small pristine databases built deterministically (variants: plain 1 file; rotated 3 files with overwrites, tombstones and a committed batch; unsealed batch tail; un-adopted finished merge so that hint file, marker and rewritten files are read by Open; 34 KiB variant with a 2-chunk record, thorough only); EVERY single-bit flip of EVERY byte of EVERY file (data, hint, marker) is applied to a fresh copy, then Open, full dump (ListKeys, Get of every key ever written, Fold), Close. damage cases: larger databases (200 KiB..1 MiB, multi-block records) with random 1..64-byte overwrites, truncation to every length of the last two blocks and random lengths elsewhere, a block replaced by garbage or zeros, every bit of the length and type fields of seed-chosen chunk headers (block-filling chunks of multi-block records preferred), and live faults (overwrite; truncation under standard I/O) applied to the files of an OPEN database whose buffers were warmed by earlier reads, observed through Get/Fold on that handle; additionally, decided for the never-a-panic clause only: a block replaced by a copy of another block (intact chunks in the wrong place) and two files exchanged; the damaged file is also fed to the sequential reader directly. Oracle: a panic or process death is a violation; otherwise Open may fail, any Get/Fold may fail with an error other than key-not-found, or every key must map to its latest written value (deleted keys stay absent, no key that was never written appears); only when the damaged newest data file is byte for byte a possible torn-write image (truncation of that file, damage inside its last record, or a chunk of it whose header/declared length now reaches beyond the end of the file, which no reader can tell from the crash tail C03 requires recovery to accept) the mapping may instead be one of the prefix states S_j. Non-trivial: fault that hits a chunk header field or record header of a record that is live; distinct = (variant, file, byte, bit) resp. hash of the fault description"
+	return "flip cases: small pristine databases built deterministically (variants: plain 1 file; rotated 3 files with overwrites, tombstones and a committed batch; unsealed batch tail; un-adopted finished merge so that hint file, marker and rewritten files are read by Open; 34 KiB variant with a 2-chunk record, thorough only); EVERY single-bit flip of EVERY byte of EVERY file (data, hint, marker) is applied to a fresh copy, then Open, full dump (ListKeys, Get of every key ever written, Fold), Close. damage cases: larger databases (200 KiB..1 MiB, multi-block records) with random 1..64-byte overwrites, truncation to every length of the last two blocks and random lengths elsewhere, a block replaced by garbage or zeros, bit flips in an older data file whose size is an exact multiple of 32 KiB, every bit of the length and type fields of seed-chosen chunk headers (block-filling chunks of multi-block records preferred), and live faults (overwrite; truncation under standard I/O) applied to the files of an OPEN database whose buffers were warmed by earlier reads, observed through Get/Fold on that handle; additionally, decided for the never-a-panic clause only: a block replaced by a copy of another block (intact chunks in the wrong place) and two files exchanged; the damaged file is also fed to the sequential reader directly. Oracle: a panic or process death is a violation; otherwise Open may fail, any Get/Fold may fail with an error other than key-not-found, or every key must map to its latest written value (deleted keys stay absent, no key that was never written appears); only when the damaged newest data file is byte for byte a possible torn-write image (truncation of that file, damage inside its last record, or a chunk of it whose header/declared length now reaches beyond the end of the file, which no reader can tell from the crash tail C03 requires recovery to accept) the mapping may instead be one of the prefix states S_j. Non-trivial: fault that hits a chunk header field or record header of a record that is live; distinct = (variant, file, byte, bit) resp. hash of the fault description"
 }
 func (c12) Assumptions() []string {
 	return []string{"torn-tail window as stated in the rule (narrowest oracle that does not contradict C03)", "CRC-32 collisions are not constructed"}
@@ -731,6 +731,69 @@ func c12Damage(c core.Case, cc c12Case, w *core.Worker) core.Result {
 		if len(res.Violations) >= 6 {
 			return res
 		}
+	}
+	// block-aligned file: an older data file whose size is an exact multiple of the 32 KiB block
+	// (its last record ends exactly on a boundary), damaged in a record that is followed by
+	// newer versions and tombstones: size arithmetic must not turn detection off
+	{
+		adir := w.Dir("aligned")
+		acfg := core.Config{IndexType: cfg.IndexType, ShardNum: 4, FileIO: cfg.FileIO, DataFileSize: 1 << 20}
+		at := core.Result{}
+		as := core.NewSession(filepath.Join(adir, "db"), acfg, &at)
+		if as.Open() {
+			as.Exec(core.Op{Kind: "put", Key: []byte("a"), VLen: 90, VSeed: r.U64() | 1})
+			as.Exec(core.Op{Kind: "put", Key: []byte("b"), VLen: 70, VSeed: r.U64() | 1})
+			as.Exec(core.Op{Kind: "put", Key: []byte("filler"), VLen: r.Range(300, 9000), VSeed: r.U64() | 1})
+			as.Exec(core.Op{Kind: "put", Key: []byte("a"), VLen: 95, VSeed: r.U64() | 1})
+			as.Exec(core.Op{Kind: "del", Key: []byte("b")})
+			files := core.DataFiles(filepath.Join(adir, "db"))
+			st, _ := os.Stat(filepath.Join(adir, "db", files[0]))
+			nblocks := int64(r.Range(1, 2))
+			fitted := false
+			if st != nil {
+				if v, ok := fitVLen(st.Size(), 1, nblocks*vfmt.Block); ok {
+					as.Exec(core.Op{Kind: "put", Key: []byte("c"), VLen: v, VSeed: r.U64() | 1})
+					fitted = true
+				}
+			}
+			// rotate: reopen with a limit just above the file's size, then one more put
+			small := acfg
+			small.DataFileSize = nblocks*vfmt.Block + 100
+			as.Exec(core.Op{Kind: "restart", Cfg: &small})
+			as.Exec(core.Op{Kind: "put", Key: []byte("post"), VLen: 1900, VSeed: r.U64() | 1})
+			as.Exec(core.Op{Kind: "put", Key: []byte("post2"), VLen: 50, VSeed: r.U64() | 1})
+			ok := !as.Dead && as.Close() && at.Verdict != "violated"
+			files = core.DataFiles(filepath.Join(adir, "db"))
+			if st2, err := os.Stat(filepath.Join(adir, "db", files[0])); ok && fitted && err == nil && st2.Size() == nblocks*vfmt.Block && len(files) >= 2 {
+				ap := &pristine{root: adir, cfg: small, states: []*core.Model{as.M}, final: as.M, ever: map[string]bool{}, newest: filepath.Join("db", files[len(files)-1])}
+				for k := range as.M.Ever {
+					ap.ever[k] = true
+				}
+				orig, _ := os.ReadFile(filepath.Join(adir, "db", files[0]))
+				recs, _, _ := vfmt.Scan(orig)
+				for t := 0; t < 24 && len(recs) > 3; t++ {
+					rc := recs[r.Intn(len(recs)-1)] // any record but the last
+					off := rc.Start + int64(r.Intn(int(rc.End-rc.Start)))
+					cp := w.Dir("cp")
+					mon.CopyTree(adir, cp)
+					fh, err := os.OpenFile(filepath.Join(cp, "db", files[0]), os.O_WRONLY, 0644)
+					if err != nil {
+						continue
+					}
+					fh.WriteAt([]byte{orig[off] ^ (1 << uint(r.Intn(8)))}, off)
+					fh.Close()
+					o, v := c12Observe(cp, ap, false, &res)
+					res.Add("aligned_file_faults", 1)
+					res.Add("outcome_"+strings.ReplaceAll(o, "-", "_"), 1)
+					if v != "" {
+						res.Violate(fmt.Sprintf("bit flip at offset %d of an older data file of exactly %d bytes: %s", off, len(orig), v),
+							map[string]string{"class": "damage", "fault": "bit-flip-aligned-file", "outcome": o}, map[string]any{"config": small, "file_size": len(orig)})
+					}
+					os.RemoveAll(cp)
+				}
+			}
+		}
+		os.RemoveAll(adir)
 	}
 	// twin faults: a database of uniformly sized records, so that every data file has the same
 	// chunk layout; a record is read from one file (which leaves that block in the engine's
